@@ -1,4 +1,4 @@
-// props: C01 C02 C14 C05
+// props: C01 C02 C14
 // mount: src/bases/mod.rs
 // K-checks of the Serializer / Parser shim contracts used by the Verus units (contracts/inc/ser.vxi) on the REAL
 // Serializer (Cursor<Vec<u8>>) and SliceParser, one concrete width per harness, full-domain symbolic values:
